@@ -125,7 +125,7 @@ def run(ctx):
     # ---------------- R3 result handling
     ctx.rule("C13.R3", "where and filter keep the item exactly when as_bool(result) is true; via and map collect the result; every returns false on the first false and true at the end; some returns true on the first true and false at the end; reduce threads the accumulator from the initial value", floor=7)
     bic = core.hir_fn(BCALL)
-    m = H.matches_on(bic["body"], "functions::BuiltInFunction")[0]
+    m = H.main_match(bic["body"], "functions::BuiltInFunction")
     arms = {}
     for a in m["arms"]:
         for v in H.pat_variants(a["pat"]):
@@ -208,7 +208,8 @@ def run(ctx):
     if ra is not None:
         fors = [n for n in H.walk(ra["body"]) if H.kind(n) == "For"]
         acc_assign = [n for n in H.walk(ra["body"]) if H.kind(n) == "Assign" and H.path_local(n["l"]) is not None and any(H.kind(x) == "MethodCall" and x.get("def") == FCALL for x in H.walk(n["r"]))]
-        okr = len(fors) == 1 and len(acc_assign) == 1
+        okr = True if (len(fors) == 1 and len(acc_assign) == 1) else None
+        dr = "the Reduce arm does not have the modelled shape (one loop, one accumulator assignment from the callback): %d loop(s), %d assignment(s)" % (len(fors), len(acc_assign))
         if okr:
             acc = H.path_local(acc_assign[0]["l"])
             an_ = H.param_by_type(bic, "Vec<blots_core::values::Value>", "args")
